@@ -83,10 +83,29 @@ def _run_program(args):
     tid0, d0, prog, seed = args
     L = lib()
     rng = np.random.default_rng(seed)
-    heap = [initial(d0, rng)]
+    origin = prog[0][0]
     ev = []
     skipped = 0
-    for k, (op, i, j) in enumerate(prog):
+    if origin == "input":
+        heap = [initial(d0, rng)]
+    else:
+        np.random.seed(seed % (2 ** 31))
+        if origin == "create_test_matrix":
+            M = q_to_float(np.asarray(L.data_gen.create_test_matrix(d0["m"], d0["n"], rank=d0["r"])))
+        else:
+            M = q_to_float(np.asarray(L.data_gen.generate_random_unitary_matrix(d0["n"])))
+        heap = [M]
+        claimed = {k2: d0[k2] for k2 in ("m", "n", "r", "orth", "herm", "tri")}
+        got = desc(M)
+        if got.pop("_amb", False):
+            return ev, 1
+        if origin == "create_test_matrix":
+            got["orth"], got["herm"], got["tri"] = claimed["orth"], claimed["herm"], claimed["tri"]     # only shape and rank are promised
+        else:
+            got["herm"], got["tri"] = claimed["herm"], claimed["tri"]
+        ev.append({"tid": tid0 + 9, "op": "gen", "origin": origin, "a": claimed, "b": claimed, "out": [got],
+                   "value": {"nonzero": 0, "count": 0}, "unchanged": True})
+    for k, (op, i, j) in enumerate(prog[1:]):
         if i > len(heap):
             break
         A = heap[i - 1]
@@ -176,7 +195,7 @@ def stage(ctx, thorough, seed):
         ctx.model("Library", MCFG % (3, 3), timeout=1500)          # deeper exploration of the composed contracts (no replay)
     progs = {}
     for s in res["states"]:
-        if not s["prog"]:
+        if len(s["prog"]) < 1:
             continue
         d0 = s["heap"][0]
         key = (d0["m"], d0["n"], d0["r"], d0["herm"], str(s["prog"]))
